@@ -341,6 +341,15 @@ def fn2(d):
         return g
     if n == 'pair_last':
         return lambda a, x: (a[0] + 1, x)
+    if n == 'append_raise_if_mod':
+        k, r = d[1], d[2]
+
+        def apr(a, x):
+            a.append(x)      # records the item in place FIRST, then validates it: the object it was given has changed when it raises
+            if x % k == r:
+                raise ValueError('boom %r' % (x,))
+            return a
+        return apr
     if n == 'append_fst':
         def appf(a, x):
             a[0].append(x)   # mutates the list held by the (immutable) tuple accumulator
